@@ -8,11 +8,11 @@ from contracts import rbm as R
 
 LEVEL = "proof"
 MANIFEST = {
-    "engine": "qv-native",
+    "engine": "qv-native+qv-gen",
     "category": "proof",
     "technique": "contracts on the real functions, executed on symbolic real parameters; obligations discharged by exp-polynomial normal form and z3",
-    "text": "PurificationRBM.effective_energy (both branches), gamma (three call forms), DensityMatrix.pi, rho (full matrix, paired vector, single element, vp=None), probability, normalization are each run on symbolic parameters and compared entry for entry with specs built from the joint energy E(v,h,a): rho must equal the partial trace over the auxiliary units of the purified two-network state. Hermiticity, PSD (x^dagger rho x is a sum of squared moduli), diagonal == probability, trace == normalization and agreement of the call forms are lemmas over those specs.",
-    "note": "floats as reals; phase-network auxiliary bias held at 0 as the property states; 1+exp(x+iy) != 0 (generic position) wherever the code takes log/atan2 of it; shapes enumerated (quick: 4 architectures up to 2x2x2, thorough up to 3x3x3 plus slices of 4), values unbounded",
+    "text": "PurificationRBM.effective_energy (both branches), gamma (three call forms), DensityMatrix.pi, rho (full matrix, paired vector, single element, vp=None), probability, normalization are each run on symbolic parameters and compared entry for entry with specs built from the joint energy E(v,h,a): rho must equal the partial trace over the auxiliary units of the purified two-network state. Hermiticity, PSD (x^dagger rho x is a sum of squared moduli), diagonal == probability, trace == normalization and agreement of the call forms are lemmas over those specs. Additionally (front end G) PurificationRBM.effective_energy / partition / mixing_term / gamma and DensityMatrix.pi / rho / probability are executed on tensors of symbolic shape and equal the closed forms for every nv, nh, na and batch size; lean/Marginals.lean proves for every number of auxiliary units that exponentiating pi's per-unit (log-modulus, argument) pairs gives the sum over all auxiliary configurations.",
+    "note": "floats as reals; phase-network auxiliary bias held at 0 as the property states; 1+exp(x+iy) != 0 (generic position) wherever the code takes log/atan2 of it; shapes enumerated (quick: 4 architectures up to 2x2x2, thorough up to 3x3x3 plus slices of 4), values unbounded; the shape-generic part (front end G) holds for all sizes and values, equalities decided by tensor-algebra normal form (sound, incomplete: a miss is undecided, never a violation without a replayed witness)",
 }
 EXPLANATION = "rho == sum_a Psi(sigma,a) conj Psi(sigma',a) with Psi = sqrt(P_lambda(sigma,a)) cis(1/2 log P_mu(sigma,a)); all hidden / auxiliary configurations expanded"
 TRUSTED = ["sqrt of a product of positive factors is the product of their square roots (each factorisation is itself an obligation)"]
